@@ -45,22 +45,32 @@ fn observe_chunk<T: Obs, V: ExactSizeIterator<Item = T>>(
     let cap = take.unwrap_or(usize::MAX).min(TAKE_CAP);
     let mut endnone = false;
     let mut n = 0;
-    while n < cap {
-        match counted(|| values.next()) {
-            Some(x) => {
-                let (v, p) = obs_item(run, x);
-                vals.push(v);
-                pidxs.push(p);
-                lens.push(w(counted(|| values.len())));
-                n += 1;
-            }
-            None => {
-                endnone = true;
-                break;
+    // a panic while the chunk is consumed or dropped (clone / destructor of an element): report what the
+    // caller had already taken, then let the panic continue
+    let r = catch_unwind(AssertUnwindSafe(|| {
+        while n < cap {
+            match counted(|| values.next()) {
+                Some(x) => {
+                    let (v, p) = obs_item(run, x);
+                    vals.push(v);
+                    pidxs.push(p);
+                    lens.push(w(counted(|| values.len())));
+                    n += 1;
+                }
+                None => {
+                    endnone = true;
+                    break;
+                }
             }
         }
+        counted(|| drop(values));
+    }));
+    if let Err(p) = r {
+        if !p.is::<Poison>() {
+            run.emit(json!({"e":"Partial","t":cur_tid(),"vals":vals}));
+        }
+        resume_unwind(p);
     }
-    counted(|| drop(values));
     json!({"k":"chunk","b":w(begin),"alen":w(alen),"vals":vals,"pidx":pidxs,"lens":lens,"endnone":endnone})
 }
 
@@ -350,16 +360,24 @@ fn owner_phase<I>(
                         let cap = st.take.unwrap_or(usize::MAX).min(TAKE_CAP);
                         let mut vals = vec![];
                         let mut full = false;
-                        while vals.len() < cap {
-                            match counted(|| s.next()) {
-                                Some(x) => vals.push(obs_item(run, x).0),
-                                None => {
-                                    full = true;
-                                    break;
+                        let r = catch_unwind(AssertUnwindSafe(|| {
+                            while vals.len() < cap {
+                                match counted(|| s.next()) {
+                                    Some(x) => vals.push(obs_item(run, x).0),
+                                    None => {
+                                        full = true;
+                                        break;
+                                    }
                                 }
                             }
+                            counted(|| drop(s));
+                        }));
+                        if let Err(p) = r {
+                            if !p.is::<Poison>() {
+                                run.emit(json!({"e":"Partial","t":0,"vals":vals}));
+                            }
+                            resume_unwind(p);
                         }
-                        counted(|| drop(s));
                         json!({"k":"seq","vals":vals,"full":full})
                     }
                     None => json!({"k":"noiter"}),
@@ -522,10 +540,11 @@ pub fn run_scenario(sc: &Scenario, idx: usize) -> (Vec<String>, Meta) {
         // a size hint of (0, Some(0)) is exact whatever the probe calls it
         "hint": if sc.hint.is_empty() || (sc.hint == "inexact" && len == 0) {"exact"} else {sc.hint.as_str()},
         "len":len,"src":src_vals,"start":w(start),"end":w(end),"threads":n,"profile":profile,
-        "consuming":consuming(&sc.kind),"pnext":sc.panic_next,"tag":if sc.tag.is_null() {json!("")} else {sc.tag.clone()}}));
+        "consuming":consuming(&sc.kind),"pnext":sc.panic_next,"revive":sc.revive,"dpanic":sc.drop_panic,"tag":if sc.tag.is_null() {json!("")} else {sc.tag.clone()}}));
     run.emit(json!({"e":"Mem","at":"start","live":alloc::live()}));
     let hint = Hint::parse(&sc.hint);
-    let meta = match sc.kind.as_str() {
+    DROP_PANIC_ID.store(sc.drop_panic, Ordering::Relaxed);
+    let meta = match catch_unwind(AssertUnwindSafe(|| match sc.kind.as_str() {
         "slice" => {
             let src = counted(|| toks(len));
             set_src(&run, &src);
@@ -589,6 +608,9 @@ pub fn run_scenario(sc: &Scenario, idx: usize) -> (Vec<String>, Meta) {
             let p = counted(|| ProbeIter {
                 items: toks(len).into_iter().collect::<VecDeque<_>>(),
                 core: ProbeCore::new(0, hint, sc.panic_next),
+                revive: sc.revive,
+                next_id: BASE_VAL + len,
+                none_seen: false,
             });
             let it = counted(|| p.into_con_iter());
             drive(&run, sc, it, None)
@@ -684,7 +706,17 @@ pub fn run_scenario(sc: &Scenario, idx: usize) -> (Vec<String>, Meta) {
                 sched_taken: vec![],
             }
         }
+    })) {
+        Ok(m) => m,
+        // the owner thread was unwound out of a call that could not return (Hang event is in the trace)
+        Err(_) => Meta {
+            hang: true,
+            overlap: false,
+            steps: 0,
+            sched_taken: vec![],
+        },
     };
+    DROP_PANIC_ID.store(0, Ordering::Relaxed);
     if !meta.hang && sc.freeze.is_none() {
         run.emit(json!({"e":"Mem","at":"end","live":alloc::live()}));
     }
